@@ -4,6 +4,7 @@ CONSTANTS
   SampleSize = 0
   NoTypeCheck = TRUE
   ImportOnlyNotFound = FALSE
+  MroRegistryLookup = FALSE
   NoClassCheck = FALSE
 SPECIFICATION Spec
 INVARIANT OnlyDocumented
